@@ -5,19 +5,27 @@
 using namespace vp;
 using namespace vpk;
 
+// VP_PROP=C06: the same harness as a sub-campaign of C06 (a real kill plugin suspended on its prekill
+// hook): hooks always configured, detectors mostly silent after the chain fired
+static bool c06mode() {
+  const char* p = getenv("VP_PROP");
+  return p && std::string(p) == "C06";
+}
+
 static Json::Value gen() {
   KillOpts o;
   o.min_ticks = 2;
   o.dry_pct = 15;
-  o.always_continue_pct = 25;
+  o.always_continue_pct = c06mode() ? 40 : 25;
   o.two_rulesets_pct = 20;
   o.ops_pct = 25;
-  o.fire_pct = 85;
+  o.fire_pct = c06mode() ? 45 : 85;
+  if (c06mode()) o.min_ticks = 4;
   o.prof.unkillable_pct = 15;
   o.prof.oomd_xattr_pct = 25;
   Json::Value sc = genKillScenario(o);
   // a prekill hook that needs a few polls: the action answers ASYNC_PAUSED while it waits
-  if (P(30)) {
+  if (c06mode() || P(30)) {
     Json::Value h(Json::objectValue);
     h["name"] = "vp_hook";
     h["args"]["id"] = "h0";
@@ -70,6 +78,7 @@ static Verdict run(const Json::Value& sc) {
   int expectedKills = 0;
   std::map<int, int> lastRun; // ruleset -> last tick its kill plugin ran
   std::map<int, bool> expectResume;
+  std::map<int, bool> resumeDue; // ruleset -> its kill action answered ASYNC_PAUSED (hook) last tick
   std::map<int, bool> hookOutstanding; // ruleset -> a prekill hook invocation object is alive
   std::map<uint64_t, int> attemptsPerCgroup;
   for (auto& inv : invs) {
@@ -92,6 +101,11 @@ static Verdict run(const Json::Value& sc) {
       if (e->s == "destroy") hookOutstanding[inv.rs] = false;
     }
     bool waiting = hookOutstanding[inv.rs];
+    if (resumeDue[inv.rs] && !sawHook && inv.attempts.empty() && inv.kmsg.empty()) {
+      v.fail("the kill action suspended on its prekill hook at the previous tick was not run again" + where);
+      break;
+    }
+    resumeDue[inv.rs] = false;
     bool ran = inv.pre_ran || expectResume[inv.rs] || !inv.attempts.empty() || sawHook;
     bool resumed = expectResume[inv.rs];
     expectResume[inv.rs] = false;
@@ -187,6 +201,7 @@ static Verdict run(const Json::Value& sc) {
         if (inv.after_ran) v.fail(std::string("next action ran although the kill action is still waiting for its prekill hook") + (always ? " (always_continue)" : "") + where);
         if (!klines.empty()) v.fail("kill record written while the prekill hook has not finished" + where);
         expectResume[inv.rs] = true;
+        resumeDue[inv.rs] = true;
         v.labels.push_back("waiting_for_hook");
         if (always) v.nontrivial = true;
       } else {
@@ -210,7 +225,7 @@ static Verdict run(const Json::Value& sc) {
 
 int main(int argc, char** argv) {
   HarnessDef d;
-  d.prop = "C17";
+  d.prop = getenv("VP_PROP") ? getenv("VP_PROP") : "C17";
   d.gen = gen;
   d.run = run;
   return harnessMain(argc, argv, d);
